@@ -87,6 +87,34 @@ def entries_under(spec, d):
     return [(p[len(pre):], k, pl) for p, k, pl in spec if p.startswith(pre)]
 
 
+def link_leads_to_dir(spec, path, hops=6):
+    """does the symbolic link at `path` (sandbox-relative) lead to a directory?  Decided on the spec, lexically."""
+    kinds = {p: (k, pl) for p, k, pl in spec}
+    dirs = {p for p, k, _ in spec if k == "d"}
+    for p, _, _ in spec:
+        parts = p.split("/")
+        for i in range(1, len(parts)):
+            dirs.add("/".join(parts[:i]))
+    cur = path
+    for _ in range(hops):
+        if cur in ("", "."):
+            return True
+        if cur in dirs:
+            return True
+        if cur not in kinds or kinds[cur][0] != "l":
+            return False
+        tgt = kinds[cur][1]
+        if tgt.startswith("ROOT"):
+            cur = os.path.normpath(tgt[4:].lstrip("/") or ".")
+        elif tgt.startswith("/"):
+            return False
+        else:
+            cur = os.path.normpath(os.path.join(os.path.dirname(cur), tgt))
+        if cur.startswith(".."):
+            return True          # the sandbox root or above: a directory
+    return False
+
+
 def gen_text(rng, mode, rel, fresh):
     """What the template rendered for the file: ('text', t) | ('abs', t) | ('raise', cls)."""
     r = rng.random()
@@ -135,10 +163,11 @@ def gen_scenario(rng, mode=None, strategy=None, dry=None, big=False, answers_poo
     have_lin = any(p == "lin" for p, _, _ in spec)
     for d in inputs:
         ents = entries_under(spec, d)
+        # what the real gatherers can designate: a link that leads to a directory counts as a directory
         if mode == "directory":
-            cand = [p for p, k, _ in ents if k == "d"]
+            cand = [p for p, k, _ in ents if k == "d" or (k == "l" and link_leads_to_dir(spec, d + "/" + p))]
         else:
-            cand = [p for p, k, _ in ents if k in ("f", "l")]
+            cand = [p for p, k, _ in ents if k == "f" or (k == "l" and not link_leads_to_dir(spec, d + "/" + p))]
         rng.shuffle(cand)
         if cand:
             cand = cand[: rng.randrange(1, min(len(cand), 6 if not big else 10) + 1)]
@@ -637,6 +666,10 @@ def analyse(scn, init):
             for b in seq[i + 1:]:
                 if b.startswith(a + "/"):
                     return None
+        # a selected directory beneath another selected directory: if the child is deferred and the parent renamed in
+        # between, the retry uses a stale path (recorded finding F25, judged by C02): not in this family
+        if any(a != b and b.startswith(a + "/") for a in seq for b in seq):
+            return None
     dsts = [d for _, d in moves]
     # a selected symbolic link renamed onto a name that another entry is rendered to as well: once the real run
     # has done that rename the shared destination IS a link and "resolves elsewhere" (C06): not in this family
